@@ -80,9 +80,34 @@ pub fn gen(tier: &str, r: &mut Rng) -> Vec<String> {
     }
     // save: structures with validation diagnostics of every class
     let n_save = crate::budget(tier, 60, 600);
-    for _ in 0..n_save {
+    for k in 0..n_save {
         let o = GenOpts { max_models: 3, allow_empty: r.chance(1, 3), ..GenOpts::default() };
-        let s = gen_pdb(r, &o);
+        let mut s = gen_pdb(r, &o);
+        // every third structure carries diagnostics of several levels at once, in both orders: a model with another
+        // atom count (LooseWarning), a model whose atom does not correspond (StrictWarning), a value outside its
+        // PDB column (validate_pdb, LooseWarning) — a gate that looks at one diagnostic only gets the level wrong
+        if k % 3 == 0 {
+            let o1 = GenOpts { max_models: 1, allow_empty: false, ..GenOpts::default() };
+            let base = gen_pdb(r, &o1);
+            if let Some(m0) = base.models.first().cloned() {
+                fn on_first_conf(m: &mut crate::st::SModel, f: impl FnOnce(&mut crate::st::SConf)) {
+                    if let Some(c) = m.chains.iter_mut().flat_map(|c| c.residues.iter_mut()).flat_map(|x| x.confs.iter_mut()).find(|c| !c.atoms.is_empty()) { f(c); }
+                }
+                let mut fewer = m0.clone();
+                on_first_conf(&mut fewer, |c| { c.atoms.pop(); });
+                let mut other = m0.clone();
+                on_first_conf(&mut other, |c| { if let Some(a) = c.atoms.first_mut() { a.charge = if a.charge == 2 { 1 } else { 2 }; } });
+                let mut wide = m0.clone();
+                on_first_conf(&mut wide, |c| { if let Some(a) = c.atoms.first_mut() { a.b = 1_000_000_000; } });
+                let mut ms = vec![if r.chance(1, 3) { wide } else { m0 }];
+                let mut rest = vec![fewer, other];
+                if r.chance(1, 2) { rest.reverse(); }
+                if r.chance(1, 4) { rest.truncate(1); }
+                ms.extend(rest);
+                for (i, m) in ms.iter_mut().enumerate() { m.serial = i + 1; }
+                s = crate::st::SPdb { models: ms };
+            }
+        }
         let (_, back) = realise(&s);
         let func = *r.pick(&["save_pdb", "save_mmcif", "save", "save_gz", "save_pdb_gz", "save_mmcif_gz"]);
         let ext = match func {
